@@ -252,6 +252,15 @@ def rule_k3_k4(ctx, facts):
                 continue
             if b.name == "reserve":
                 ctx.inst("K3", b, "try_presize from reserve", c.span, True, "explicit reservation")
+                # K7: room for `additional` *further* entries: the target is the current entry count plus the request
+                f = ev.operand(c.args[1])
+                lens = [s0 for s0 in (f.symbols() if f is not TOP else []) if s0[0] == "call" and callee_str(b.call_at(s0[1])).endswith("HashMap::len")]
+                args_ = [s0 for s0 in (f.symbols() if f is not TOP else []) if s0[0] == "arg"]
+                ok7 = f is not TOP and len(lens) == 1 and len(args_) == 1 and f == Aff({lens[0]: 1, args_[0]: 1})
+                ctx.inst("K7", b, "reserve targets len() + additional", c.span, ok7,
+                         "try_presize(%s)" % f.show(b) if ok7 else
+                         "reserve asks try_presize for %s instead of len() + additional: with entries already present the reservation does not make room for "
+                         "`additional` further ones" % (f.show(b) if f is not TOP else "a non-affine size"))
             elif b.name == "treeify_bin":
                 ok = False
                 for blk in range(len(b.blocks)):
@@ -408,6 +417,7 @@ def run(ctx, facts):
     ctx.rule("K2", "capacity rounding min(2^30, next_power_of_two(1.5c+1)) in both presize siblings; thresholds are 3/4 of the new length",
              floor=6, floor_note="2 roundings + agreement + threshold stores in presize, try_presize, init_table, transfer")
     ctx.rule("K3", "resize initiators, try_presize callers, hint discipline", floor=7)
+    ctx.rule("K7", "reserve(additional) presizes for len() + additional", floor=1)
     ctx.rule("K4", "cap guard before initiating; table pointer only replaced by fresh/doubled tables", floor=5)
     ctx.rule("K5", "constants and comparison operators of the contract", floor=6)
     ctx.rule("K6", "capacity 0 allocates no table", floor=3)
